@@ -185,7 +185,7 @@ def _grid(ty, level):
     raise ValueError("no grid for type " + ty)
 
 
-def _cex_search(fn, head, prelude, fns, dead_fns, out_dir, pid, timeout, cmds):
+def _cex_search(fn, head, prelude, fns, dead_fns, out_dir, pid, timeout, cmds, segs=()):
     cex = fn.get("cex")
     if not cex:
         return None
@@ -204,6 +204,9 @@ def _cex_search(fn, head, prelude, fns, dead_fns, out_dir, pid, timeout, cmds):
     for f in fns:
         if f["status"] == "translated" and f["name"] not in dead_fns:
             a.add(f["coq"].rstrip("\n"), ("gen", f["name"]))
+    for (kind, needs, text) in segs:
+        if kind == "text":  # projections / tactics shared by the blocks (they use the prelude only)
+            a.add(text.strip("\n"), ("text",))
     names = [v[0] for v in vars_]
     pat = names[-1]
     prod = grids[-1]
@@ -305,6 +308,19 @@ def _run(pid, repo, out_dir, timeout, spec, ps, res, cmds, t0):
             for t in ths:
                 failed[t] = {"theorem": t, "error_tail": _tail(se), "at": cur[-1] if cur else t,
                              "needs": segs[i][1]}
+            # later blocks that use a theorem of a failed block fail with it (saves a coqc run each)
+            changed = True
+            while changed:
+                changed = False
+                for j2, (kind2, needs2, text2) in enumerate(segs):
+                    if kind2 != "block" or j2 in dead_blocks or j2 not in included:
+                        continue
+                    dep = [t for t in failed if re.search(r"\b%s\b" % re.escape(t), text2)]
+                    if dep:
+                        dead_blocks.add(j2)
+                        changed = True
+                        for t in _theorems_of(text2):
+                            failed[t] = {"theorem": t, "error_tail": "depends on the failed " + dep[0], "needs": needs2}
             continue
         res["error"] = "template or prelude does not compile: " + _tail(se)
         for i in included:
@@ -328,7 +344,8 @@ def _run(pid, repo, out_dir, timeout, spec, ps, res, cmds, t0):
     # Print Assumptions: one verdict per proved theorem
     closed = len(re.findall(r"Closed under the global context", out_text))
     axioms = re.findall(r"^Axioms:\s*\n((?:.+\n)+)", out_text, re.M)
-    res["assumptions_closed"] = (not axioms) and closed >= len(proved)
+    expected = sum(len(re.findall(r"^\s*Print Assumptions", segs[i][2], re.M)) for i in included) if "error" not in res else 0
+    res["assumptions_closed"] = (not axioms) and closed >= expected
     if axioms:
         res["axioms"] = [a.strip() for a in axioms]
     # counterexample search for the functions of the failed theorems
@@ -340,7 +357,7 @@ def _run(pid, repo, out_dir, timeout, spec, ps, res, cmds, t0):
                     continue
                 seen.add(n)
                 try:
-                    cx = _cex_search(fspec[n], head, tr["prelude"], fns, dead_fns, out_dir, pid, min(timeout, 120), cmds)
+                    cx = _cex_search(fspec[n], head, tr["prelude"], fns, dead_fns, out_dir, pid, min(timeout, 120), cmds, segs)
                 except Exception as e:  # a search aid only
                     cx = None
                     res.setdefault("cex_errors", []).append(str(e))
